@@ -1,7 +1,559 @@
-//! C19 driver (stub: not built yet).
-use crate::trace::Args;
+//! C19 driver: integer determinants, lattice indices, Smith forms (matrix::intdense, matrix::intsparse).
+//!
+//! Input: behaviours of spec/unimat/UniMat.tla (TLC simulation, one JSON object per line): a matrix
+//! M = basis rows, redundant rows X, and the bookkeeping det(M) = sign * prod(factors), quotient group
+//! (+) Z/diag[i] while `grp`.  The driver replays each behaviour into the real routines, and derives
+//! further variants natively with the SAME bookkeeping rules (the rules are model checked in UniMat.tla
+//! for k <= 3, and the trace specification re-derives det(M) mod small primes from the logged matrix):
+//!   ext   : M embedded in a larger K x K matrix (rest diagonal), mixed by further +-1 row/column
+//!           additions, swaps, negations (K up to 60 dense, up to ~300 sparse)
+//!   big   : rows scaled by 40..58-bit tokens so that the determinant needs 1..20+ CRT primes
+//! Every event carries the known facts (sign, factors, diag) and the result of one routine; the TLA+
+//! trace specification UniMatTrace.tla is the judge.  Panics are events (`outcome`).
 
-pub fn run(_args: &Args) -> i32 {
-    eprintln!("driver c19 not built yet");
-    2
+use bnum::cast::CastFrom;
+use bnum::types::{I4096, U256};
+use bnum::{BInt, BUint};
+use rand::rngs::StdRng;
+use rand::seq::SliceRandom;
+use rand::Rng;
+use serde_json::{json, Value};
+
+use yamaquasi::matrix::intdense::{self, SmithNormalForm};
+use yamaquasi::matrix::intsparse::{self, berlekamp_massey, SparseMat};
+
+use crate::gen::{is_prime_u64, rng_for};
+use crate::trace::*;
+
+#[derive(Clone)]
+struct Case {
+    id: String,
+    variant: &'static str,
+    k: usize,
+    m: Vec<Vec<i64>>,
+    x: Vec<Vec<i64>>,
+    xc: Option<Vec<Vec<i64>>>,
+    sign: i64,
+    factors: Vec<i128>,
+    diag: Vec<i64>,
+    grp: bool,
+    src: Value,
+}
+
+fn rows_of(v: &Value) -> Vec<Vec<i64>> {
+    v.as_array().unwrap().iter().map(|r| r.as_array().unwrap().iter().map(|x| x.as_i64().unwrap()).collect()).collect()
+}
+
+fn case_from(bi: usize, b: &Value) -> Case {
+    Case {
+        id: format!("b{}", bi),
+        variant: "base",
+        k: b["k"].as_u64().unwrap() as usize,
+        m: rows_of(&b["M"]),
+        x: rows_of(&b["X"]),
+        xc: Some(rows_of(&b["XC"])),
+        sign: b["sign"].as_i64().unwrap(),
+        factors: b["factors"].as_array().unwrap().iter().map(|x| x.as_i64().unwrap() as i128).collect(),
+        diag: b["diag"].as_array().unwrap().iter().map(|x| x.as_i64().unwrap()).collect(),
+        grp: b["grp"].as_bool().unwrap(),
+        src: json!({"steps": b["steps"], "nops": b["nops"]}),
+    }
+}
+
+impl Case {
+    fn singular(&self) -> bool {
+        self.factors.iter().any(|&f| f == 0)
+    }
+    fn log2det(&self) -> f64 {
+        self.factors.iter().map(|&f| (f.unsigned_abs() as f64).log2()).sum()
+    }
+    /// |det| when it fits 120 bits
+    fn index_u128(&self) -> Option<u128> {
+        let mut h: u128 = 1;
+        for &f in &self.factors {
+            h = h.checked_mul(f.unsigned_abs())?;
+            if h >> 120 != 0 {
+                return None;
+            }
+        }
+        Some(h)
+    }
+    fn max_abs(&self) -> u64 {
+        self.m.iter().chain(self.x.iter()).flat_map(|r| r.iter()).map(|x| x.unsigned_abs()).max().unwrap_or(0)
+    }
+    fn base_fields(&self, op: &str) -> Value {
+        json!({
+            "op": op, "case": self.id, "variant": self.variant, "k": self.k, "sign": self.sign,
+            "factors": self.factors.iter().map(|&f| di128(f)).collect::<Vec<_>>(),
+            "diag": self.diag, "grp": self.grp, "src": self.src, "nx": self.x.len(),
+        })
+    }
+    /// the matrix, for the specification's own determinant (mod small primes): plain ints or BigInt records
+    fn matrix_fields(&self, ev: &mut Value) {
+        let o = ev.as_object_mut().unwrap();
+        if self.k > 40 {
+            o.insert("mk".into(), json!("none"));
+        } else if self.max_abs() < (1 << 31) {
+            o.insert("mk".into(), json!("int"));
+            o.insert("Mi".into(), json!(self.m));
+        } else {
+            o.insert("mk".into(), json!("big"));
+            o.insert("Mb".into(), Value::from(self.m.iter().map(|r| Value::from(r.iter().map(|&x| di64(x)).collect::<Vec<_>>())).collect::<Vec<_>>()));
+        }
+    }
+}
+
+// ---------------------------------------------------------------------------------------------
+// native variants (same bookkeeping as UniMat.tla)
+// ---------------------------------------------------------------------------------------------
+
+const EXTRA_DIAG: &[i64] = &[1, 1, 1, 1, 2, 2, 3, 4, 5, 6, 8, 9, 12, 16, 27, 64, 100, 101, 1009];
+
+/// M embedded in K x K, rest diagonal from EXTRA_DIAG, then `nops` elementary operations with
+/// coefficients +-1 (entries kept below `bound`).
+fn extend(c: &Case, rng: &mut StdRng, kk: usize, nops: usize, bound: i64, tag: &str) -> Case {
+    let k = c.k;
+    assert!(kk >= k);
+    let mut m = vec![vec![0i64; kk]; kk];
+    for i in 0..k {
+        m[i][..k].copy_from_slice(&c.m[i]);
+    }
+    let mut diag = c.diag.clone();
+    let mut factors = c.factors.clone();
+    for i in k..kk {
+        let d = *EXTRA_DIAG.choose(rng).unwrap();
+        m[i][i] = d;
+        diag.push(d);
+        factors.push(d as i128);
+    }
+    let mut x: Vec<Vec<i64>> = c
+        .x
+        .iter()
+        .map(|r| {
+            let mut v = r.clone();
+            v.resize(kk, 0);
+            v
+        })
+        .collect();
+    let mut sign = c.sign;
+    let ok = |v: i64| v.abs() <= bound;
+    for _ in 0..nops {
+        match rng.gen_range(0..10) {
+            0..=3 => {
+                // row_i += c row_j
+                let (i, j) = (rng.gen_range(0..kk), rng.gen_range(0..kk));
+                let cf: i64 = if rng.gen() { 1 } else { -1 };
+                if i == j {
+                    continue;
+                }
+                if (0..kk).all(|t| ok(m[i][t] + cf * m[j][t])) {
+                    for t in 0..kk {
+                        m[i][t] += cf * m[j][t];
+                    }
+                }
+            }
+            4..=7 => {
+                // col_i += c col_j on every generator
+                let (i, j) = (rng.gen_range(0..kk), rng.gen_range(0..kk));
+                let cf: i64 = if rng.gen() { 1 } else { -1 };
+                if i == j {
+                    continue;
+                }
+                if m.iter().chain(x.iter()).all(|r| ok(r[i] + cf * r[j])) {
+                    for r in m.iter_mut().chain(x.iter_mut()) {
+                        r[i] += cf * r[j];
+                    }
+                }
+            }
+            8 => {
+                let (i, j) = (rng.gen_range(0..kk), rng.gen_range(0..kk));
+                if i != j {
+                    m.swap(i, j);
+                    sign = -sign;
+                }
+            }
+            _ => {
+                let i = rng.gen_range(0..kk);
+                for t in 0..kk {
+                    m[i][t] = -m[i][t];
+                }
+                sign = -sign;
+            }
+        }
+    }
+    // a few more redundant generators: sums / differences of two basis rows
+    for _ in 0..rng.gen_range(1..5) {
+        let (i, j) = (rng.gen_range(0..kk), rng.gen_range(0..kk));
+        let cf: i64 = if rng.gen() { 1 } else { -1 };
+        let row: Vec<i64> = (0..kk).map(|t| m[i][t] + if i != j { cf * m[j][t] } else { 0 }).collect();
+        if row.iter().all(|&v| ok(v)) {
+            x.push(row);
+        }
+    }
+    Case { id: format!("{}/{}{}", c.id, tag, kk), variant: "ext", k: kk, m, x, xc: None, sign, factors, diag, grp: c.grp, src: c.src.clone() }
+}
+
+/// rows scaled by tokens (ScaleRow): factors appended, group no longer known, no redundant rows
+fn scale_big(c: &Case, rng: &mut StdRng, nrows: usize, tag: &str) -> Case {
+    let mut m = c.m.clone();
+    let mut factors = c.factors.clone();
+    let mut idx: Vec<usize> = (0..c.k).collect();
+    idx.shuffle(rng);
+    for &i in idx.iter().take(nrows) {
+        let rowmax = m[i].iter().map(|x| x.unsigned_abs()).max().unwrap().max(1);
+        // token * rowmax < 2^62
+        let room = 62 - (64 - rowmax.leading_zeros());
+        if room < 8 {
+            continue;
+        }
+        let bits = rng.gen_range((room.saturating_sub(20)).max(2)..=room.min(58));
+        let mut t: i64 = (rng.gen::<u64>() >> (64 - bits)) as i64 | (1i64 << (bits - 1));
+        if rng.gen_range(0..4) == 0 {
+            t = -t;
+        }
+        for v in m[i].iter_mut() {
+            *v *= t;
+        }
+        factors.push(t as i128);
+    }
+    Case { id: format!("{}/{}", c.id, tag), variant: "big", k: c.k, m, x: vec![], xc: None, sign: c.sign, factors, diag: c.diag.clone(), grp: false, src: c.src.clone() }
+}
+
+// ---------------------------------------------------------------------------------------------
+// calls
+// ---------------------------------------------------------------------------------------------
+
+fn merge(mut base: Value, extra: Value) -> Value {
+    if let (Some(b), Some(e)) = (base.as_object_mut(), extra.as_object()) {
+        for (k, v) in e {
+            b.insert(k.clone(), v.clone());
+        }
+    }
+    base
+}
+
+fn sparse_rows(rows: &[Vec<i64>]) -> Vec<Vec<(u32, i32)>> {
+    rows.iter().map(|r| r.iter().enumerate().filter(|(_, &v)| v != 0).map(|(j, &v)| (j as u32, v as i32)).collect()).collect()
+}
+
+fn norm_of(rows: &[Vec<i64>]) -> u64 {
+    rows.iter()
+        .map(|r| {
+            let pos: i64 = r.iter().filter(|&&v| v > 0).sum();
+            let neg: i64 = -r.iter().filter(|&&v| v < 0).sum::<i64>();
+            pos.max(neg) as u64
+        })
+        .max()
+        .unwrap_or(0)
+}
+
+/// Domain of SparseMat::detz read off the code: entries fit i16, dimension n >= 8, and the determinant
+/// is decided by the first floor(n/4)-1 groups of four primes just below 2^63/norm (the last group only
+/// confirms), else the routine runs out of primes (`unreachable!`).
+fn sparse_det_in_domain(c: &Case) -> bool {
+    let n = c.k;
+    if n < 8 || c.max_abs() >= (1 << 15) {
+        return false;
+    }
+    let norm = norm_of(&c.m);
+    if norm == 0 {
+        return false;
+    }
+    let pbits = 62 - (64 - norm.leading_zeros()) as i64; // every selected prime exceeds 2^pbits
+    let groups = (n / 4) as i64 - 1;
+    if c.singular() {
+        return true;
+    }
+    (c.log2det() + 3.0) < (4 * groups * pbits) as f64
+}
+
+fn ev_det_dense(c: &Case, out: &mut Out) {
+    if c.singular() {
+        return;
+    }
+    let l2 = c.log2det();
+    if l2.round() < 1.0 || l2.round() > 63.0 * 64.0 {
+        return; // documented domain of det_matz: |det| >= 2, at most 4032 bits
+    }
+    let mut ev = c.base_fields("det_dense");
+    c.matrix_fields(&mut ev);
+    let m = c.m.clone();
+    let r = guard(move || {
+        let rows: Vec<&[i64]> = m.iter().map(|v| &v[..]).collect();
+        intdense::det_matz(rows, l2)
+    });
+    let nprimes = ((l2.round() as usize) + 59) / 60;
+    let ev = merge(ev, json!({"log2": l2, "nprimes": nprimes}));
+    out.ev(match r {
+        Ok(d) => merge(ev, json!({"res": di(&d)})),
+        Err(e) => merge(ev, e),
+    });
+}
+
+fn ev_det_sparse(c: &Case, rng: &mut StdRng, out: &mut Out) {
+    if c.max_abs() >= (1 << 15) || norm_of(&c.m) == 0 || c.k == 0 {
+        return;
+    }
+    let rows = sparse_rows(&c.m);
+    // determinant modulo four word-size primes (Wiedemann): any dimension
+    {
+        let norm = norm_of(&c.m);
+        let bound = (1u64 << 62) / norm;
+        let mut ps = [0u64; 4];
+        for p in ps.iter_mut() {
+            loop {
+                let cand = rng.gen_range(bound / 2..bound) | 1;
+                if cand > 70000 && is_prime_u64(cand) {
+                    *p = cand;
+                    break;
+                }
+            }
+        }
+        if c.k % 3 == 0 {
+            ps[3] = ps[0]; // repeated modulus is allowed (the repository's own test does it)
+        }
+        let mut ev = c.base_fields("detp4");
+        c.matrix_fields(&mut ev);
+        let rr = rows.clone();
+        let r = guard(move || SparseMat::new(rr).detp4(ps));
+        let ev = merge(ev, json!({"primes": ps.iter().map(|&p| du(p)).collect::<Vec<_>>()}));
+        out.ev(match r {
+            Ok(d) => merge(ev, json!({"res": d.iter().map(|&x| du(x)).collect::<Vec<_>>()})),
+            Err(e) => merge(ev, e),
+        });
+    }
+    if sparse_det_in_domain(c) {
+        let mut ev = c.base_fields("det_sparse");
+        c.matrix_fields(&mut ev);
+        let rr = rows.clone();
+        let r = guard(move || SparseMat::new(rr).detz(None));
+        out.ev(match r {
+            Ok(d) => merge(ev, json!({"res": di(&d)})),
+            Err(e) => merge(ev, e),
+        });
+    }
+}
+
+/// bounds bracketing h: (shape name, hmin, hmax), all within the documented ratio after the routine's own
+/// widening by 0.9 / 1.1 (hmax * 1.1 / (hmin * 0.9) < 1.5)
+fn bounds_for(h: u128, shape: usize) -> (&'static str, f64, f64) {
+    let hf = h as f64;
+    match shape % 5 {
+        0 => ("exact", hf, hf),
+        1 => ("pm1pc", (hf * 0.99).floor(), (hf * 1.01).ceil()),
+        2 => ("wide", (hf * 0.92).floor(), (hf * 1.09).ceil()),
+        3 => ("above", hf, (hf * 1.2).ceil()),
+        _ => ("below", (hf * 0.84).floor(), hf),
+    }
+}
+
+fn all_rows(c: &Case, rng: &mut StdRng) -> Vec<Vec<i64>> {
+    let mut rows: Vec<Vec<i64>> = c.m.iter().chain(c.x.iter()).cloned().collect();
+    // the routines expect an overdetermined system (at least 4 generators): pad with copies / negated
+    // copies of basis rows (redundant generators, lattice unchanged)
+    let mut i = 0;
+    while rows.len() < 4.max(c.k + 1) {
+        let r = &c.m[i % c.k];
+        rows.push(if i % 2 == 0 { r.clone() } else { r.iter().map(|v| -v).collect() });
+        i += 1;
+    }
+    rows.shuffle(rng);
+    rows
+}
+
+fn ev_lattice(c: &Case, rng: &mut StdRng, out: &mut Out, shape: usize, sparse_too: bool) {
+    if c.singular() || c.max_abs() >= (1 << 27) {
+        return;
+    }
+    let Some(h) = c.index_u128() else { return };
+    let (bname, hmin, hmax) = bounds_for(h, shape);
+    if !(hmin >= 1.0) {
+        return;
+    }
+    let rows = all_rows(c, rng);
+    let bfields = json!({"bounds": bname, "hmin": du128(hmin as u128), "hmax": du128(hmax as u128), "nrows": rows.len()});
+    {
+        let mut ev = merge(c.base_fields("lattice_dense"), bfields.clone());
+        c.matrix_fields(&mut ev);
+        if let Some(xc) = &c.xc {
+            if c.k <= 12 {
+                ev = merge(ev, json!({"X": c.x, "XC": xc}));
+            }
+        }
+        let rr = rows.clone();
+        let r = guard(move || intdense::compute_lattice_index(&rr, hmin, hmax));
+        out.ev(match r {
+            Ok(d) => merge(ev, json!({"res": du128(d)})),
+            Err(e) => merge(ev, e),
+        });
+    }
+    if sparse_too && sparse_det_in_domain(c) && rows.iter().all(|r| r.iter().all(|v| v.abs() < (1 << 15))) {
+        let ev = merge(c.base_fields("lattice_sparse"), bfields);
+        let rr = sparse_rows(&rows);
+        let k = c.k;
+        let r = guard(move || intsparse::compute_lattice_index(k, &rr, hmin, hmax, None));
+        out.ev(match r {
+            Ok(d) => merge(ev, json!({"res": dn(&d)})),
+            Err(e) => merge(ev, e),
+        });
+    }
+}
+
+fn ev_snf(c: &Case, rng: &mut StdRng, out: &mut Out, shape: usize) {
+    if c.singular() || c.max_abs() >= (1 << 27) {
+        return;
+    }
+    let Some(h) = c.index_u128() else { return };
+    let (bname, hmin, hmax) = bounds_for(h, shape);
+    if !(hmin >= 1.0) {
+        return;
+    }
+    let rows = all_rows(c, rng);
+    // generator identifiers: increasing, not contiguous
+    let ids: Vec<u32> = (0..c.k as u32).map(|j| 3 * j + 2).collect();
+    let rels: Vec<Vec<(u32, i32)>> = rows.iter().map(|r| r.iter().enumerate().filter(|(_, &v)| v != 0).map(|(j, &v)| (ids[j], v as i32)).collect()).collect();
+    let ev = merge(c.base_fields("snf"), json!({"bounds": bname, "hmin": du128(hmin as u128), "hmax": du128(hmax as u128), "nrows": rows.len()}));
+    let r = guard(move || {
+        let mut s = SmithNormalForm::new(&rels, vec![], hmin, hmax);
+        s.reduce();
+        let n = s.rows.len();
+        let mut offdiag_zero = true;
+        let mut dg = vec![];
+        for i in 0..n {
+            for j in 0..s.rows[i].len() {
+                if i != j && s.rows[i][j] != 0 {
+                    offdiag_zero = false;
+                }
+            }
+            dg.push(s.rows[i][i]);
+        }
+        (s.h, dg, offdiag_zero, s.gens.len(), s.removed.len())
+    });
+    out.ev(match r {
+        Ok((hh, dg, odz, ngens, nrem)) => merge(
+            ev,
+            json!({"h": du128(hh), "out": dg.iter().map(|&d| di128(d)).collect::<Vec<_>>(), "offdiag_zero": odz, "ngens": ngens, "nremoved": nrem}),
+        ),
+        Err(e) => merge(ev, e),
+    });
+}
+
+// ---------------------------------------------------------------------------------------------
+// Berlekamp-Massey on sequences with a known recurrence
+// ---------------------------------------------------------------------------------------------
+
+fn ev_bm(rng: &mut StdRng, out: &mut Out, idx: usize, l: usize, pkind: usize, skind: usize) {
+    let p: u64 = match pkind % 4 {
+        0 => 65537,
+        1 => 2147483647,
+        2 => loop {
+            let c = rng.gen_range(1u64 << 40..1u64 << 41) | 1;
+            if is_prime_u64(c) {
+                break c;
+            }
+        },
+        _ => loop {
+            let c = rng.gen_range(1u64 << 61..1u64 << 62) | 1;
+            if is_prime_u64(c) {
+                break c;
+            }
+        },
+    };
+    let mm = |a: u64, b: u64| ((a as u128 * b as u128) % p as u128) as u64;
+    let taps: Vec<u64> = (0..l).map(|j| if skind % 4 == 1 && j + 1 < l { 0 } else { rng.gen_range(1..p) }).collect();
+    let mut s: Vec<u64> = (0..l)
+        .map(|i| match skind % 4 {
+            2 if i + 1 < l => 0, // impulse response 0,..,0,1
+            2 => 1,
+            3 => 1 + (i as u64 % 2),
+            _ => rng.gen_range(0..p),
+        })
+        .collect();
+    for i in l..2 * l {
+        let mut v = 0u64;
+        for j in 0..l {
+            v = (v + mm(taps[j], s[i - 1 - j])) % p;
+        }
+        s.push(v);
+    }
+    if s.iter().filter(|&&v| v != 0).count() < 2 {
+        return; // outside the routine's domain (it returns an empty vector by design)
+    }
+    let ev = json!({"op": "bm", "case": format!("bm{}", idx), "L": l, "pkind": pkind % 4, "skind": skind % 4, "p": du(p),
+                    "seq": s.iter().map(|&v| du(v)).collect::<Vec<_>>(),
+                    "taps": taps.iter().map(|&v| du(v)).collect::<Vec<_>>()});
+    let ss = s.clone();
+    let r = guard(move || berlekamp_massey(p, &ss));
+    out.ev(match r {
+        Ok(u) => merge(ev, json!({"u": u.iter().map(|&v| du(v)).collect::<Vec<_>>()})),
+        Err(e) => merge(ev, e),
+    });
+}
+
+// ---------------------------------------------------------------------------------------------
+
+pub fn run(args: &Args) -> i32 {
+    let seed = arg_u64(args, "seed", 1);
+    let thorough = arg_str(args, "tier", "quick") == "thorough";
+    let behs = read_ndjson(arg_str(args, "beh", "behaviours.ndjson"));
+    let mut out = Out::create(arg_str(args, "out", "trace.ndjson"));
+    let mut rng = rng_for(seed, "c19");
+    // encoding self-test: the same numbers as decimal strings and as digits
+    let t: i128 = -((1i128 << 100) + 12345);
+    out.ev(json!({"op": "selftest", "case": "selftest", "a": di128(t), "b": du128(1u128 << 100), "c": 12345}));
+
+    for (bi, b) in behs.iter().enumerate() {
+        let c = case_from(bi, b);
+        // (a) the behaviour as generated by TLC
+        ev_det_dense(&c, &mut out);
+        ev_det_sparse(&c, &mut rng, &mut out);
+        ev_lattice(&c, &mut rng, &mut out, bi, true);
+        ev_snf(&c, &mut rng, &mut out, bi + 2);
+        // (b) larger matrices built on top of it
+        let gentle = c.max_abs() <= 5000;
+        if bi % 3 == 0 && gentle {
+            let kk = [16usize, 24, 33, 40, 60][(bi / 3) % 5];
+            let kk = if thorough { kk } else { kk.min(40) };
+            let e = extend(&c, &mut rng, kk, 3 * kk, 40000, "e");
+            ev_det_dense(&e, &mut out);
+            ev_det_sparse(&e, &mut rng, &mut out);
+            ev_lattice(&e, &mut rng, &mut out, bi + 1, true);
+            ev_snf(&e, &mut rng, &mut out, bi + 3);
+            // big determinants on the larger matrix
+            let nrows = [1usize, 2, 5, 9, 14, 20, 24][(bi / 3) % 7].min(kk);
+            let g = scale_big(&e, &mut rng, nrows, "s");
+            ev_det_dense(&g, &mut out);
+        }
+        // (c) big determinants directly on the behaviour
+        if bi % 2 == 1 {
+            let g = scale_big(&c, &mut rng, 1 + bi % c.k.max(1), "s");
+            ev_det_dense(&g, &mut out);
+        }
+        // (d) sparse matrices of a few hundred rows (Wiedemann)
+        let every = if thorough { 12 } else { 40 };
+        if bi % every == 7 && gentle {
+            let kk = if thorough { [120usize, 200, 300][(bi / every) % 3] } else { [64usize, 120][(bi / every) % 2] };
+            let e = extend(&c, &mut rng, kk, 4 * kk, 200, "w");
+            ev_det_sparse(&e, &mut rng, &mut out);
+            if kk <= 120 {
+                ev_det_dense(&e, &mut out);
+            }
+        }
+    }
+    // Berlekamp-Massey
+    let mut idx = 0;
+    for l in [1usize, 2, 3, 4, 5, 7, 8, 12, 16] {
+        for pkind in 0..4 {
+            for skind in 0..4 {
+                if !thorough && (l + pkind + skind) % 2 == 1 {
+                    continue;
+                }
+                ev_bm(&mut rng, &mut out, idx, l, pkind, skind);
+                idx += 1;
+            }
+        }
+    }
+    let _ = (I4096::ZERO, U256::ZERO, BInt::<4>::ZERO, BUint::<4>::ZERO, u64::cast_from(0u32));
+    out.finish();
+    0
 }
